@@ -283,12 +283,38 @@ func genItem(r *vh.Rng, key string) *livesim.LItem {
 	return it
 }
 
+// words that also occur in error-handling code paths: decode errors quote table, column and value
+var errorWords = []string{"open", "closed", "EOF", "timeout", "context canceled", "sql: database is closed", "abc"}
+
+func genOrder(r *vh.Rng, id int64) *livesim.LOrder {
+	o := &livesim.LOrder{Id: id, State: r.Pick(errorWords), Timeout: int32([]int{0, 30}[r.Intn(2)])}
+	switch r.Intn(3) {
+	case 1:
+		o.ClosedAt = ip(0)
+	case 2:
+		o.ClosedAt = ip(5)
+	}
+	return o
+}
+
 // genFilter draws a filter over columns of the table from the same value domain as the rows.
 func genFilter(r *vh.Rng, table string) sqlgen.Filter {
 	f := sqlgen.Filter{}
 	n := r.Intn(3)
 	for i := 0; i < n; i++ {
-		if table == "users" {
+		if table == "closed_orders" {
+			o := genOrder(r, 1)
+			switch r.Intn(4) {
+			case 0:
+				f["state"] = o.State
+			case 1:
+				f["closed_at"] = o.ClosedAt
+			case 2:
+				f["timeout"] = o.Timeout
+			case 3:
+				f["id"] = int64(1 + r.Intn(4))
+			}
+		} else if table == "users" {
 			u := genUser(r, 1)
 			switch r.Intn(9) {
 			case 0:
@@ -368,7 +394,15 @@ func printRow(tbl *sqlgen.Table, x interface{}) string {
 func selectRows(ctx context.Context, ldb *livesql.LiveDB, schema *sqlgen.Schema, table string, f sqlgen.Filter) ([]string, error) {
 	tbl := schema.ByName[table]
 	var out []string
-	if table == "users" {
+	if table == "closed_orders" {
+		var rows []*livesim.LOrder
+		if err := ldb.Query(ctx, &rows, f, nil); err != nil {
+			return nil, err
+		}
+		for _, x := range rows {
+			out = append(out, printRow(tbl, x))
+		}
+	} else if table == "users" {
 		var rows []*livesim.LUser
 		if err := ldb.Query(ctx, &rows, f, nil); err != nil {
 			return nil, err
@@ -438,7 +472,7 @@ func runCase(schema *sqlgen.Schema, c Case) (res *result) {
 	lg := &quietLogger{}
 	vb := livesql.NewVerifBinlog(ldb, database, lg)
 	e := &env{rids: map[interface{}]int{}, ridQuery: map[int]*liveQuery{}, invalid: map[int]bool{}, removed: map[int]bool{},
-		running: map[int]*liveQuery{}, needMap: map[string]bool{"users": true, "items": true}}
+		running: map[int]*liveQuery{}, needMap: map[string]bool{"users": true, "items": true, "closed_orders": true}}
 	// every SELECT issued from a live query's function: the dependency must already be registered
 	srv.FailNext = func(kind, sql string) error {
 		if kind != "query" || !strings.HasPrefix(strings.ToUpper(strings.TrimSpace(sql)), "SELECT") {
@@ -486,6 +520,13 @@ func runCase(schema *sqlgen.Schema, c Case) (res *result) {
 				res.fail("harness-setup", err.Error())
 				return
 			}
+		}
+	}
+
+	for i := 0; i < r.Intn(3); i++ {
+		if _, err := ldb.UpsertRow(bg, genOrder(r, int64(1+r.Intn(4)))); err != nil {
+			res.fail("harness-setup", err.Error())
+			return
 		}
 	}
 
@@ -537,7 +578,7 @@ func runCase(schema *sqlgen.Schema, c Case) (res *result) {
 					}
 				}
 				if j >= 0 {
-					p.rows[len(p.rows)-1][j] = "abc"
+					p.rows[len(p.rows)-1][j] = r.Pick(errorWords)
 					p.undecodable = "type-mismatch"
 				}
 			case 2:
@@ -606,8 +647,10 @@ func runCase(schema *sqlgen.Schema, c Case) (res *result) {
 	var rerunners []*reactive.Rerunner
 	for i := 0; i < nq; i++ {
 		table := "users"
-		if r.Chance(35) {
+		if k := r.Intn(100); k < 30 {
 			table = "items"
+		} else if k < 50 {
+			table = "closed_orders"
 		}
 		f := genFilter(r, table)
 		if minimal {
@@ -741,6 +784,17 @@ func runCase(schema *sqlgen.Schema, c Case) (res *result) {
 					what = "upsert"
 				}
 				opsDesc = append(opsDesc, fmt.Sprintf("%s users %d", what, id))
+			} else if r.Chance(40) {
+				id := int64(1 + r.Intn(4))
+				o := genOrder(r, id)
+				if r.Chance(25) {
+					err = ldb.DeleteRow(ctx, o) // of a missing row: no change, no event
+					what = "delete"
+				} else {
+					_, err = ldb.UpsertRow(ctx, o)
+					what = "upsert"
+				}
+				opsDesc = append(opsDesc, fmt.Sprintf("%s closed_orders %d", what, id))
 			} else {
 				k := itemKeys[r.Intn(len(itemKeys))]
 				it := genItem(r, k)
@@ -808,8 +862,10 @@ func runCase(schema *sqlgen.Schema, c Case) (res *result) {
 				time.Sleep(500 * time.Microsecond)
 			}
 			table := "users"
-			if r.Chance(35) {
+			if k := r.Intn(100); k < 30 {
 				table = "items"
+			} else if k < 50 {
+				table = "closed_orders"
 			}
 			layoutMu.Lock()
 			nm, kind := res.layouts[table].Alter(r)
